@@ -1,12 +1,107 @@
 /-
-Driver commands of property C18 (core Lean only).  Command names start with "c18.".
+Driver commands of property C18 (core Lean only).
+
+  c18.merge <orders> <less> <links> <inputs>
+    orders  one letter per input: u(nknown) n (unsorted) q(ueryname) c(oordinate); "-" for no input
+    less    the custom less given to NewMerger: nil | pos | namedesc | matepos
+    links   per input (separated by "/") the merged reference index of each source reference ("3,0,1", "-" = none);
+            "x" when there is no merged header
+    inputs  per input (separated by "/"): how it ends ("e" = io.EOF, "f<n>" = error n) and the records it delivers,
+            ";"-separated, each  <name in hex>:<ref>:<pos>:<mate>:<matepos>   (ref/mate -1 = nil)
+  answer: "<input>.<index>:<ref>:<mate>,…|<eof | err:n | more>|<a>,<b>"  or  "newerr:eof" / "newerr:mismatch"
+          (a, b: what the next two calls of Read return after the final error: eof | err:n | rec)
 -/
 import Hts.Drv.Util
+import Hts.Model.Merger
 namespace Hts.Drv.C18
-open Hts.Drv
+open Hts.Drv Hts.Model.Merger
+
+def parseOrder (c : Char) : Option SortOrder :=
+  if c == 'u' then some .unknown else if c == 'n' then some .unsorted
+  else if c == 'q' then some .queryname else if c == 'c' then some .coordinate else none
+
+def parseLess (s : String) : Option (Option Less) :=
+  if s == "nil" then some none
+  else if s == "pos" then some (some fun a b => decide (a.pos < b.pos))
+  else if s == "namedesc" then some (some fun a b => bytesLt b.name a.name)
+  else if s == "matepos" then some (some fun a b => decide (a.matePos < b.matePos))
+  else none
+
+def parseRef (s : String) : Option (Option Nat) := do
+  let i ← parseInt s
+  if i < 0 then some none else some (some i.toNat)
+
+def parseRec (uid : Nat) (s : String) : Option Rec :=
+  match s.splitOn ":" with
+  | [n, r, p, m, mp] => do
+    some { name := ← parseHex n, ref := ← parseRef r, pos := ← parseInt p, mate := ← parseRef m,
+           matePos := ← parseInt mp, uid := uid }
+  | _ => none
+
+def parseRecs : Nat → List String → Option (List Rec)
+  | _, [] => some []
+  | i, s :: ss => do
+    let r ← parseRec i s
+    let rs ← parseRecs (i + 1) ss
+    some (r :: rs)
+
+def parseTerm (s : String) : Option Term :=
+  if s == "e" then some .eof
+  else match s.toList with
+    | 'f' :: ds => do some (.err (← parseNat (String.ofList ds)))
+    | _ => none
+
+def parseSrc (s : String) : Option Src :=
+  match s.splitOn ";" with
+  | t :: rs => do some { rest := ← parseRecs 0 rs, term := ← parseTerm t }
+  | [] => none
+
+def parseLinkList (s : String) : Option (List Nat) :=
+  if s == "-" then some [] else (s.splitOn ",").mapM parseNat
+
+def mkLinkFn (ls : List (List Nat)) : LinkFn := fun i x =>
+  match ls[i]? with
+  | some l => (match l[x]? with | some y => y | none => 999999)
+  | none => 999999
+
+def showRef : Option Nat → String
+  | none => "-"
+  | some x => toString x
+
+def showOut (o : List (Nat × Rec)) : String :=
+  ",".intercalate (o.map fun p => s!"{p.1}.{p.2.uid}:{showRef p.2.ref}:{showRef p.2.mate}")
+
+def showFin : Option Term → String
+  | none => "more"
+  | some .eof => "eof"
+  | some (.err e) => s!"err:{e}"
+
+def showAgain : Out → String
+  | .got _ _ => "rec"
+  | .fin t => showFin (some t)
+
+def zipInputs : List SortOrder → List Src → List Input
+  | so :: sos, s :: ss => { so := so, src := s } :: zipInputs sos ss
+  | _, _ => []
+
+def merge (orders less links inputs : String) : Option String := do
+  let custom ← parseLess less
+  let sos ← if orders == "-" then some [] else orders.toList.mapM parseOrder
+  let srcs ← if inputs == "-" then some [] else (inputs.splitOn "/").mapM parseSrc
+  let ls ← if links == "x" then some [] else (links.splitOn "/").mapM parseLinkList
+  if sos.length ≠ srcs.length then none else
+  match newMerger custom (mkLinkFn ls) (zipInputs sos srcs) with
+  | .error .noSource => some "newerr:eof"
+  | .error .sortOrderMismatch => some "newerr:mismatch"
+  | .ok m =>
+    let (out, fin) := m.readAll scanHeap
+    let a := (m.advance scanHeap (m.size + 1)).read scanHeap
+    let b := a.2.read scanHeap
+    some s!"{showOut out}|{showFin fin}|{showAgain a.1},{showAgain b.1}"
 
 def handle (cmd : String) (args : List String) : Option String :=
   match cmd, args with
+  | "c18.merge", [orders, less, links, inputs] => merge orders less links inputs
   | _, _ => none
 
 end Hts.Drv.C18
